@@ -3,3 +3,4 @@ NEXT SNext
 CONSTANTS
   MaxCmds = 2
 INVARIANT SEmit
+INVARIANT SEmitEnds
